@@ -27,7 +27,12 @@ def prepare(case):
         t = proj.build_tensor(case["ops"][f["t"]], [v.upper() for v in ix], shape=[ext[v] for v in ix], name=f["t"])
         for tl in (tile, case.get("tile2") or {}):         # tile2: a second, non-output variable tiled as well (operands of four ranks)
             if tl and tl["v"] in ix:
-                t = t.splitUniform(tl["s"], rankid=tl["v"].upper())
+                e_, s_ = ext[tl["v"]], tl["s"]
+                n_ = -(-e_ // s_)
+                if case.get("tilediv") and ix[0] == tl["v"] and -(-e_ // n_) == s_:
+                    t = t / n_                      # the operator twin of splitUniform: n partitions of ceil(shape / n) coordinates of the root rank
+                else:
+                    t = t.splitUniform(tl["s"], rankid=tl["v"].upper())
                 k = ix.index(tl["v"])
                 ix = ix[:k] + [tl["v"] + "1", tl["v"] + "0"] + ix[k + 1:]
         want = [v for v in order if v in ix]
